@@ -83,6 +83,9 @@ type Run struct {
 	Matcher        int `json:"matcher,omitempty"`
 	MatchTimeoutMs int `json:"match_timeout_ms,omitempty"`
 
+	// StopMid: halfway through the run the server is stopped and its configuration unloaded (listeners closed, the handler's
+	// context cancelled and cleaned up, as on a reload that drops the handler); connections in flight stay throttled
+	StopMid bool `json:"stop_mid,omitempty"`
 	// Seg > 0: the clients that have everything ready write it in segments of this many bytes (all queued at once), so a
 	// read asked for one batch often returns the rest of a segment instead (a short read with more data right behind it)
 	Seg int `json:"seg,omitempty"`
@@ -115,6 +118,9 @@ var specials = []*Run{
 	// short reads with more data behind them, reader buffer larger than the burst
 	{Rate: 20000, Burst: 1000, BufSize: 32 << 10, Conns: 2, DurationMs: 1200, Seg: 1500},
 	{Rate: 0, TotalRate: 20000, TotalBurst: 1000, BufSize: 32 << 10, Conns: 2, DurationMs: 1200, Seg: 1300},
+	// the configuration is unloaded halfway through
+	{Rate: 0, TotalRate: 2000, TotalBurst: 300, BufSize: 512, Conns: 2, DurationMs: 1200, StopMid: true},
+	{Rate: 3000, Burst: 300, BufSize: 512, Conns: 2, DurationMs: 1200, StopMid: true},
 	// two throttle handlers in a row: the slower one has the larger burst
 	{Rate: 5000, Burst: 20000, Rate2: 20000, Burst2: 1000, BufSize: 32 << 10, Conns: 1, DurationMs: 1200},
 	{Rate: 20000, Burst: 1000, Rate2: 5000, Burst2: 20000, BufSize: 512, Conns: 2, DurationMs: 1200, SecondInSub: true},
@@ -193,6 +199,7 @@ func genRun(seed int64, i int) *Run {
 		ru.PreMatch = []int{1, 100, 2000, 5000}[r.Intn(4)]
 	}
 	r2 := fw.Rand(seed, "c17extra", i)
+	ru.StopMid = fw.Rand(seed, "c17stop", i).Intn(5) == 0
 	if r2.Intn(3) == 0 {
 		ru.Seg = []int{1500, 1300, 700, 4000, 100}[r2.Intn(5)]
 	}
@@ -378,7 +385,13 @@ func execute(c *fw.Ctx, ru *Run) {
 	for _, cs := range conns {
 		app.L.Inject(cs.server)
 	}
-	time.Sleep(time.Duration(ru.DurationMs) * time.Millisecond)
+	if ru.StopMid {
+		time.Sleep(time.Duration(ru.DurationMs/2) * time.Millisecond)
+		app.Stop()
+		time.Sleep(time.Duration(ru.DurationMs-ru.DurationMs/2) * time.Millisecond)
+	} else {
+		time.Sleep(time.Duration(ru.DurationMs) * time.Millisecond)
+	}
 	for _, cs := range conns {
 		cs.client.Abort()
 	}
